@@ -144,11 +144,17 @@ def direct_cost(case, rows, fixed):
 def _mk(case, fixed):
     from skchange.costs import GaussianCovCost, GaussianVarCost, L2Cost
 
+    def f(v):  # integral fixed parameters are also passed as Python / NumPy integers (a third of the cases)
+        k = core._bits(case, 4, 3)
+        if k and float(v) == int(float(v)) and abs(v) < 2**31:
+            return int(v) if k == 1 else np.int64(int(v))
+        return v
+
     if case["cost"] == "l2":
-        return L2Cost(param=case["mean"] if fixed else None)
+        return L2Cost(param=f(case["mean"]) if fixed else None)
     if case["cost"] == "gvar":
-        return GaussianVarCost(param=(case["mean"], case["var"]) if fixed else None)
-    return GaussianCovCost(param=(case["mean"], case["var"]) if fixed else None)
+        return GaussianVarCost(param=(f(case["mean"]), f(case["var"])) if fixed else None)
+    return GaussianCovCost(param=(f(case["mean"]), f(case["var"])) if fixed else None)
 
 
 def impl_builtin(case):
